@@ -4,7 +4,7 @@
 (* AsyncExecutor + execute_single + Sampler + RequestContextHolder on a     *)
 (* virtual clock, see harness/clientloop.py) against ClientLoop.tla.        *)
 (* Input (env VERIF_TRACES): JSON array of items                            *)
-(*   [id, exact, tol, cfg, t0, events: << request >>, end: [n, ny, aborted, capped, stray]]          *)
+(*   [id, exact, tol, cfg, elem, t0, events: << request >>, end: [n, ny, aborted, capped, stray]]    *)
 (* one event per tuple yielded by the schedule / request executed:          *)
 (*   sched, ty, p, yat   the yielded tuple and the instant of the yield     *)
 (*   ncalls, rnum, rden  calls of random.expovariate before the yield, rate *)
@@ -30,6 +30,15 @@ tvars == <<vars, tid, l, prev, dead, nev>>
 
 Item == Traces[tid]
 
+(* Runs produced through the REAL Allocator / ClientAllocations / AsyncIoAdapter carry the declaration of their schedule *)
+(* element (elem.use): the client's index, the number of clients ramping up together and the sub-task's clients are    *)
+(* then DERIVED here from the declaration (Placement), not taken from the code's TaskAllocation.  cfg.client is the id  *)
+(* of the client whose Elasticsearch client executed the requests (observed).                                          *)
+ItemCfg == IF Item.elem.use
+           THEN LET pl == Placement(Item.elem, Item.elem.j, Item.elem.i)
+                IN [Item.cfg EXCEPT !.idx = pl.idx, !.total = pl.total, !.clients = pl.clients]
+           ELSE Item.cfg
+
 RecOf(e, n) == [n |-> n, sched |-> e.sched, ty |-> e.ty, p |-> e.p, yat |-> e.yat, issue |-> e.issue, ws |-> e.ws,
                 we |-> e.we, ret |-> e.ret, ok |-> e.ok, w |-> e.w, unit |-> e.unit, ext |-> e.ext,
                 nsamples |-> e.nsamples, s |-> e.s, lw |-> 0, exts |-> FALSE]
@@ -51,8 +60,11 @@ TInit == /\ tid = 1 /\ l = 0 /\ prev = NoReq /\ dead = FALSE /\ nev = 0
 
 Begin ==
     /\ tid <= Len(Traces) /\ l = 0
-    /\ cfg' = Item.cfg
-    /\ st' = RampUpStep(Item.cfg, StartStep(Item.cfg, InitState(Item.t0)))
+    /\ cfg' = ItemCfg
+    /\ st' = RampUpStep(ItemCfg, StartStep(ItemCfg, InitState(Item.t0)))
+    \* L2 (model of the allocator's wrap-around): the executing client is idx % total
+    /\ IF ~Item.elem.use \/ Item.cfg.client = Placement(Item.elem, Item.elem.j, Item.elem.i).executes
+       THEN TRUE ELSE PrintT(<<"V", Item.id, 0, "L2", {}>>)
     /\ prev' = NoReq /\ dead' = ~Item.exact /\ l' = 1
     /\ UNCHANGED <<tid, nev, act>>
 
